@@ -10,7 +10,7 @@ LEVEL = "exploration"
 RULE = (
     "6 hand-written statements covering identifiers {a, Ab, fooBar, FOO}, quoted identifiers, string literals, NULL/true/False, "
     "functions, types and comments containing keywords, plus G(1); every <=d case deviation (lower/upper/Capitalised/mIxed of one "
-    "word) of each; x each CP rule alone and the capitalisation group x policies {consistent, upper, lower, capitalise} and the "
+    "word) of each, plus two statements whose identifiers / function names contain non-ASCII letters (postgres, tsql, duckdb); x each CP rule alone and the capitalisation group x policies {consistent, upper, lower, capitalise} and the "
     "extended {pascal, snake, camel}; G(1) in every dialect under the group. Non-trivial = the fix changed the text; "
     "distinct (input, rule, policy) by construction."
 )
@@ -30,6 +30,10 @@ BASE = [
     "SELECT CAST(a AS \"MyType\"), CAST(b AS Int) FROM t\n",
     "CREATE TABLE t (a \"MyType\", b \"Sch\".\"MoodEnum\", c varchar(10))\n",
     "CREATE TABLE t (a double /* Foo */ precision, b Int -- Bar\n)\n",
+]
+UNICODE_BASE = [
+    "SELECT caf\u00e9_cm, \u00d6l_tbl.Spalte, fooBar FROM tabelle_\u00f6\n",
+    "SELECT Gr\u00f6sse(a), \u0434\u0430\u043d\u043d\u044b\u0435, \u0394x FROM \u0442\u0430\u0431\u043b\u0438\u0446\u0430 AS T\u00e4\n",
 ]
 POLICIES = ["consistent", "upper", "lower", "capitalise", "pascal", "snake", "camel"]
 RULES = ["capitalisation", "CP01", "CP02", "CP03", "CP04", "CP05"]
@@ -56,6 +60,12 @@ def cases(tier):
         for p in POLICIES:
             for i in range(0, len(ss), 64):
                 out.append({"k": "cp", "d": "ansi", "r": r, "p": p, "ss": ss[i : i + 64]})
+    # identifiers / function names with non-ASCII letters, in the dialects whose lexers accept them unquoted
+    us = corpus.D(UNICODE_BASE, d, "K")
+    for dl in ("postgres", "tsql", "duckdb"):
+        for r in RULES:
+            for p in POLICIES:
+                out.append({"k": "cp", "d": dl, "r": r, "p": p, "ss": us})
     g = corpus.G(1) if tier == "quick" else corpus.D(corpus.G(1), 1, "K")
     for dl in corpus.dialects():
         if dl == "ansi":
@@ -89,7 +99,9 @@ def run_case(case):
         res["nontrivial"] += 1
         res.setdefault("sample", one)
         res["cls"].add(digest((text, fixed, case["r"], case["p"])))
-        if len(fixed) != len(text) or any(a != b and a.lower() != b.lower() for a, b in zip(text, fixed)):
+        if text.casefold() == fixed.casefold():
+            pass  # case-only by Unicode rules even where one character folds to two (sharp s)
+        elif len(fixed) != len(text) or any(a != b and a.lower() != b.lower() for a, b in zip(text, fixed)):
             add("not_case_only", {"policy": case["p"], "length_changed": len(fixed) != len(text)}, {"fixed": fixed[:200]})
             continue
         toks, _ = fixfam.lex_text(lnt, text)
